@@ -31,7 +31,7 @@ RULE = ("points O, (0,-1), both points of order 4, all four of order 8, G, -G, s
 
 USES_GENERATED = True
 GEN_SELECT = "ed"
-EXTRA_THEOREM_MODULES = []
+EXTRA_THEOREM_MODULES = ["RelicVerif.Lemmas.EdFormulas", "RelicVerif.Lemmas.EdGroup", "RelicVerif.Lemmas.EdMul", "RelicVerif.Lemmas.EdConv"]
 
 CONFIGS = ["p255", "p255-extnd", "p255-basic"]
 SYS = {"p255": "projc", "p255-extnd": "extnd", "p255-basic": "basic", "p255-extnd-san": "extnd"}
@@ -266,13 +266,18 @@ def gen_group(rng, cv, sysname, count):
     return out
 
 
-def gen_mul(rng, cv, sysname, count):
+def gen_mul(rng, cv, sysname, count, part=None):
+    """part = (i, n): the systematic block covers the scalar classes congruent to i modulo n (the configurations share the loop code;
+    across the n configurations every variant still meets every class)"""
     pool = [cv.mul(cv.g, rng.bits(256) % cv.r) for _ in range(6)]
     out = []
     rp = "P" if sysname == "projc" else ("PE" if sysname == "extnd" else "")
+    mine = (lambda c: True) if part is None else (lambda c: c % part[1] == part[0])
     # systematic part: every multiplication variant meets every scalar class at least once
     for v in MUL:
         for cls in range(NCLASS):
+            if not mine(cls + len(v)):
+                continue
             kk = scalar(rng, cv.r, cls)
             if v == "dig":
                 kk = abs(kk) & ((1 << 64) - 1)
@@ -280,6 +285,8 @@ def gen_mul(rng, cv, sysname, count):
             out.append("edm %s %d %s %s" % (v, rng.below(2), ptok(rng, cv, P, "" if v.startswith("fix") else rp), hx(kk)))
     for v in SIM:
         for cls in range(NCLASS):
+            if not mine(cls + len(v)):
+                continue
             out.append("eds %s %s %s %s %s" % (v, ptok(rng, cv, rng.choice(pool), rp), hx(scalar(rng, cv.r, cls)),
                                               ptok(rng, cv, rng.choice(pool), rp), hx(scalar(rng, cv.r, (cls * 5 + 3) % NCLASS))))
     for _ in range(count):
@@ -395,6 +402,25 @@ def gen_map(rng, count):
     return out
 
 
+def witnesses(cv, cfg):
+    """one deterministic line per known finding of known_findings.json, so that every run shows each of them (or reports it stale)"""
+    G, G2 = cv.g, cv.mul(cv.g, 2)
+    g, g2 = "%x,%x" % G, "%x,%x" % G2
+    y = 2
+    while cv.lift(y) is not None:
+        y += 1
+    out = ["edm lwnaf 0 %s %x" % (g, (1 << 255) + 1),            # C17-F1
+           "edm fix_combs 0 %s %x" % (g, (1 << 255) + 1),        # C17-F2
+           "edm fix_basic 0 %s %x" % (g, (1 << 253) + 1),        # C17-F2
+           "ed1 neg_basic 0 %s" % g,                             # C17-F7
+           "ed_upk %x 0" % y]                                    # C17-F8
+    if SYS[cfg] == "extnd":
+        out.append("edm lwreg 0 %s 6" % g)                       # C17-F3 (and C17-F4 under the sanitizer)
+    else:
+        out.append("ed2 sub_extnd 0 %s %s" % (g, g2))            # C17-F6
+    return out
+
+
 CVS = {}
 
 
@@ -413,7 +439,8 @@ SAN = "p255-extnd-san"
 def streams(ctx, scale=1):
     quick = ctx.tier == "quick"
     ng = (260 if quick else 20000) * scale
-    nm = (90 if quick else 6000) * scale
+    nm = (70 if quick else 6000) * scale
+    part = (lambda i: (i, 3)) if quick else (lambda i: None)
     ne = (160 if quick else 8000) * scale
     nh = (14 if quick else 400) * scale
     res = []
@@ -426,7 +453,7 @@ def streams(ctx, scale=1):
             if cfg == SAN:
                 # the same generators under AddressSanitizer / UBSan, shorter; lines that are known to fault (C17-F4, C17-F5) are kept out
                 # of the stream except one witness each at the end (every fault costs an oracle restart)
-                body = (gen_group(ctx.rng, cv, SYS[cfg], ng // 4) + gen_mul(ctx.rng, cv, SYS[cfg], nm // 2)
+                body = (gen_group(ctx.rng, cv, SYS[cfg], ng // 4) + gen_mul(ctx.rng, cv, SYS[cfg], nm // 2, (0, 4) if quick else None)
                         + gen_enc(ctx.rng, cv, SYS[cfg], ne // 3) + gen_map(ctx.rng, 3))
                 keep = []
                 for l in body:
@@ -434,13 +461,11 @@ def streams(ctx, scale=1):
                     if any(v == "lwreg" or _bits(k) > LIM.get(v, INF) for v, k in rt):
                         continue
                     keep.append(l)
-                P = cv.mul(cv.g, 5)
-                keep.append("edm lwreg 0 %x,%x 7" % P)
-                keep.append("edm fix_basic 0 %x,%x %x" % (P[0], P[1], (1 << 300) + 1))
-                lines += keep
+                lines += keep + witnesses(cv, cfg)
             else:
-                lines += gen_group(ctx.rng, cv, SYS[cfg], ng) + gen_mul(ctx.rng, cv, SYS[cfg], nm) + gen_enc(ctx.rng, cv, SYS[cfg], ne)
-                lines += gen_map(ctx.rng, nh)
+                lines += (gen_group(ctx.rng, cv, SYS[cfg], ng) + gen_mul(ctx.rng, cv, SYS[cfg], nm, part(CONFIGS.index(cfg)))
+                          + gen_enc(ctx.rng, cv, SYS[cfg], ne))
+                lines += gen_map(ctx.rng, nh) + witnesses(cv, cfg)
         res.append({"name": "ed-" + cfg, "cfg": cfg, "exe": exe, "lines": lines})
     return res
 
